@@ -109,6 +109,17 @@ def eq(a, b):
     return a == b
 
 
+def be_uint(bs):
+    v = 0
+    for b in bs:
+        v = (v << 8) | int(b)
+    return v
+
+
+def eq_mod32(a, b):
+    return (a - b) % (1 << 32) == 0
+
+
 def conj(xs):
     return all(bool(x) for x in xs)
 
